@@ -100,6 +100,16 @@ proof fn flags400_facts(ym: int)
         ("let days = (year1_div_400", "        proof { dn_range_consts(); dn_cycle(v_year(self), v_ord(self)); dn_cycle(v_year(rhs), v_ord(rhs)); dn_cycle(MIN_Y(), 1); dn_cycle(MAX_Y(), 365); in_range(v_year(self), v_ord(self)); in_range(v_year(rhs), v_ord(rhs)); }")])
     for n in ['checked_add_days', 'checked_sub_days', 'checked_add_signed', 'checked_sub_signed']:
         u.prove(F, n, IMPL, cid='NaiveDate::' + n, hints=[('{', "        proof { dn_range_consts(); in_range(v_year(self), v_ord(self)); }")] if False else [])
+    # operator forms: checked form + expect (documented to panic exactly when the checked form refuses = the precondition)
+    for impl_hdr, fn, cid in [('impl Add<TimeDelta> for NaiveDate {', 'add', 'Add__add'), ('impl Sub<TimeDelta> for NaiveDate {', 'sub', 'Sub__sub'),
+                              ('impl Add<Days> for NaiveDate {', 'add', 'Add_Days__add'), ('impl Sub<Days> for NaiveDate {', 'sub', 'Sub_Days__sub'),
+                              ('impl Sub<NaiveDate> for NaiveDate {', 'sub', 'Sub_NaiveDate__sub')]:
+        u.prove(F, fn, impl_hdr, cid='NaiveDate::' + cid, rename=cid, subst=[('-> Self::Output', '-> NaiveDate', 'none')] if False else [],
+                replace_sig=('fn %s(self, days: Days) -> NaiveDate' % fn) if 'Days' in cid else None)
+    u.prove(F, 'add_assign', 'impl AddAssign<TimeDelta> for NaiveDate {', cid='NaiveDate::AddAssign__add_assign', rename='AddAssign__add_assign',
+            subst=[('self.add(rhs)', 'self.Add__add(rhs)', 'R6 trait call re-pointed')])
+    u.prove(F, 'sub_assign', 'impl SubAssign<TimeDelta> for NaiveDate {', cid='NaiveDate::SubAssign__sub_assign', rename='SubAssign__sub_assign',
+            subst=[('self.sub(rhs)', 'self.Sub__sub(rhs)', 'R6 trait call re-pointed')])
     u.raw('}')
     u.raw(P.FOOTER)
     return u
